@@ -61,6 +61,21 @@ func scenarios(prop string, thorough bool) []*Scenario {
 		r = append(r, &Scenario{Name: "full+txmanager/no-split-table/from-connect", Opt: netsim.Options{TxManager: true, Manager: true, NoSplits: true}, Alphabet: alpha, Depth: pick(3, 4), oracle: oracleC13})
 		// the same with the stream arriving in pieces (reads of at most 7 bytes)
 		r = append(r, &Scenario{Name: "full+txmanager/from-connect/short-reads-7", Opt: netsim.Options{TxManager: true, Manager: true, ReadChunk: 7}, Alphabet: alpha, Depth: pick(3, 4), oracle: oracleC13})
+		// the transaction manager is attached while the node is running (an API call order the
+		// embedding program is free to use): at any point of the session, to the node or through
+		// the node manager
+		late := append(append([]string{}, alpha...), "!attach-txmanager", "!attach-txmanager-via-manager")
+		r = append(r, &Scenario{Name: "full+late-txmanager/from-connect", Opt: netsim.Options{TxManager: true, LateTxManager: true, Manager: true}, Alphabet: late, Depth: pick(4, 5), oracle: oracleC13})
+		r = append(r, &Scenario{Name: "full+late-txmanager/after-handshake", Opt: netsim.Options{TxManager: true, LateTxManager: true, Manager: true}, Prefix: []string{"version", "verack"}, Alphabet: late, Depth: pick(3, 4), oracle: oracleC13})
+		// a peer that stays silent until the node's handshake timer (3 s) has expired - after nothing,
+		// after its version only, after its verack only - and then goes on with the protocol
+		for _, pre := range [][]string{{}, {"version"}, {"verack"}} {
+			for _, role := range []netsim.Options{{TxManager: true, Manager: true}, {VerifyOnly: true, Manager: true}} {
+				r = append(r, &Scenario{Name: roleName(role) + "/handshake-timeout-after-[" + strings.Join(pre, ",") + "]", Opt: role,
+					Prefix:   append(append([]string{}, pre...), "!wait-handshake-timeout"),
+					Alphabet: []string{"headers[bsv-split]", "verack", "version", "headers[block1,block2]", "addr[1]", "inv[tx0]"}, Depth: 2, oracle: oracleC13})
+			}
+		}
 	case "C03":
 		alpha := append(append([]string{}, handshakeLetters...), headersLetters...)
 		alpha = append(alpha, "ping", "protoconf", "addr[1]", "inv[tx0]", "unknown[1025]")
